@@ -1,6 +1,6 @@
 """C10 - LP weights: the total covers the sum of users' weights; the weight curve is sane (structural part)."""
 import re
-from rules.common import (PredTrue, PredFalse, where, flat_atoms, all_origins, exact_origins, ops_of, show, origin_match, data_test)
+from rules.common import (opmap, PredTrue, PredFalse, where, flat_atoms, all_origins, exact_origins, ops_of, show, origin_match, data_test)
 from base import CutPolicy
 from absint import EMPTY, vfield, tagvals, const_of
 
@@ -53,7 +53,7 @@ def run(W, chk):
         if len(ws) == 2:
             k = [e.extra.get("key", EMPTY) for e in ws]
             addr = [exact_origins(vfield(x, "0")) for x in k]
-            ep = [{o: ops for (o, ops) in flat_atoms(vfield(x, "2"))} for x in k]
+            ep = [opmap(vfield(x, "2")) for x in k]
             den = [all_origins(vfield(x, "1")) for x in k]
             okk = ep[0] == NEXT and ep[1] == NEXT and den[0] == den[1] and {"env.contract.address"} in addr and recv in [all_origins(vfield(x, "0")) for x in k]
             chk.expect(okk, "AGREE-twin-update", lab + ".keys", "contract and user snapshots at (addr, same denom, current+1)",
